@@ -177,6 +177,11 @@ def class_source(spec) -> str:
                 L.append(f"        forbid_extra_keys = {c['forbid']!r}")
             if c.get("dialect_support"):
                 L.append("        code_generation_options = [ADD_DIALECT_SUPPORT]")
+            if c.get("dw") == "none":
+                L.append("        discriminator = None")
+            elif c.get("dw") is not None:
+                fld = c["dw"][1]
+                L.append("        discriminator = Discriminator(" + (f"field={fld!r}, " if fld is not None else "") + "include_subtypes=True)")
             if len(L) == n0:
                 L.append("        pass")
             body += 1
@@ -487,7 +492,7 @@ def source_views(spec, mod):
 def tag_dispatch_ok(spec) -> bool:
     """The parent's discriminator field is a class attribute of K (declared by class_source) and no field can
     be read from that key (the tag value is a string, not an int / None)."""
-    if spec["discr"] is None or spec["discr"][0] != "field":
+    if spec["discr"] is None or spec["discr"][0] != "field" or spec.get("no_base"):
         return False
     fld = spec["discr"][1]
     if not (fld.isidentifier() and not keyword.iskeyword(fld)) or fld in member_names(spec):
@@ -751,21 +756,22 @@ def c_discr(spec) -> str:
     return "(Some None)"
 
 
+def c_level(lv) -> str:
+    decls = "; ".join(f"({c_fld(f)}, {vlib.coq_bool(f['init'])})" for f in lv["decls"])
+    if lv["config"] is None:
+        cfg = "None"
+    else:
+        c = lv["config"]
+        ob = lambda b: "None" if b is None else f"(Some {vlib.coq_bool(b)})"
+        al = "None" if c["aliases"] is None else f"(Some {c_aliases(c['aliases'])})"
+        cfg = (f"(Some (mkCD {vlib.coq_bool(c['inherit'] is not None)} {vlib.coq_bool(c['plain'])} {al} "
+               f"{ob(c['allow'])} {ob(c['forbid'])}))")
+    return f"mkL [{decls}] {cfg}"
+
+
 def c_spec(spec) -> str:
     """The hierarchy as written; flattening (nearest declaration, nearest Config, init filter) happens in Coq."""
-    lv_txt = []
-    for lv in spec["levels"]:
-        decls = "; ".join(f"({c_fld(f)}, {vlib.coq_bool(f['init'])})" for f in lv["decls"])
-        if lv["config"] is None:
-            cfg = "None"
-        else:
-            c = lv["config"]
-            ob = lambda b: "None" if b is None else f"(Some {vlib.coq_bool(b)})"
-            al = "None" if c["aliases"] is None else f"(Some {c_aliases(c['aliases'])})"
-            cfg = (f"(Some (mkCD {vlib.coq_bool(c['inherit'] is not None)} {vlib.coq_bool(c['plain'])} {al} "
-                   f"{ob(c['allow'])} {ob(c['forbid'])}))")
-        lv_txt.append(f"mkL [{decls}] {cfg}")
-    return f"[{'; '.join(lv_txt)}]"
+    return f"[{'; '.join(c_level(lv) for lv in spec['levels'])}]"
 
 
 def c_hooks(spec) -> str:
@@ -1605,6 +1611,202 @@ def dc_check(ctx, dc_items, dc_shown):
 
 
 # ---------------------------------------------------------------------------
+# which class-level discriminator: any class of the hierarchy may define one in its Config
+# ---------------------------------------------------------------------------
+# config["dw"]: None (no discriminator line) | "none" (discriminator = None) | ("obj", field | None)
+
+DISCR_FIELDS = ["t", "t", "u", "kind", "None", ""]
+
+
+def o_cfg_discr(mro):
+    """mro: the class bodies, nearest first.  The `discriminator` attribute of the Config class the first one sees:
+    Python attribute lookup (written in the body of that Config, else in the Config it derives from, else the
+    documented default None)."""
+    for j, lv in enumerate(mro):
+        c = lv["config"]
+        if c is None:
+            continue
+        if c.get("dw") == "none":
+            return None
+        if c.get("dw") is not None:
+            return c["dw"]
+        if c["inherit"] is not None:
+            return o_cfg_discr(mro[j + 1:])
+        return None
+    return None
+
+
+def o_own_discr(mro):
+    """the class's own Config has a discriminator: its from_dict selects a subtype"""
+    return o_cfg_discr(mro) if mro and mro[0]["config"] is not None else None
+
+
+def o_nearest_discr(mro):
+    """the class-level discriminator a class has: that of the nearest class along the MRO that is a dispatcher"""
+    for j in range(len(mro)):
+        dv = o_own_discr(mro[j:])
+        if dv is not None:
+            return dv
+    return None
+
+
+def c_oo(dv) -> str:
+    return "None" if dv is None else f"(Some {c_ostr(dv[1])})"
+
+
+def c_dw(lv) -> str:
+    c = lv["config"]
+    if c is None or c.get("dw") is None:
+        return "DAbsent"
+    if c["dw"] == "none":
+        return "DNone"
+    return f"(DObj {c_ostr(c['dw'][1])})"
+
+
+def c_dlevels(mro) -> str:
+    return "[" + "; ".join(f"({c_level(lv)}, {c_dw(lv)})" for lv in mro) + "]"
+
+
+def gen_discr_spec(rng):
+    spec = gen_spec(rng, {"mixin": rng.choice([None, "dict", "dict"])})
+    spec["discr"] = None
+    levels = spec["levels"]
+    depth = len(levels)
+    lower = None
+    for j, lv in enumerate(levels):
+        lv.pop("hook", None)
+        if lv["config"] is None and rng.random() < 0.6:
+            inherit = lower is not None and rng.random() < 0.5
+            lv["config"] = {"plain": levels[lower]["config"]["plain"] if inherit else rng.random() < 0.3,
+                            "inherit": levels[lower]["cls"] if inherit else None, "aliases": None, "allow": None, "forbid": None}
+        c = lv["config"]
+        if c is not None:
+            c.pop("dialect_support", None)
+            if c["inherit"] is not None:
+                # a deriving Config names the Config its class would otherwise see: the nearest one below
+                c["inherit"] = levels[lower]["cls"]
+                c["plain"] = levels[lower]["config"]["plain"]
+            if spec["shape"] == "roots" and lv["cls"] != "K" and c["inherit"] is not None:
+                c["inherit"] = None            # an unrelated base names no other class's Config (its MRO is itself)
+            lower = j
+    if levels[-1]["config"] is None:
+        levels[-1]["config"] = {"plain": False, "inherit": None, "aliases": None, "allow": None, "forbid": None}
+    if rng.random() < 0.8:
+        levels[-1]["config"]["forbid"] = True
+    pool = DISCR_FIELDS + [f["name"] for f in o_fields(spec)] + [a for a in all_alias_strings(spec)][:3]
+    for lv in levels:
+        c = lv["config"]
+        if c is None:
+            continue
+        r = rng.random()
+        c["dw"] = None if r < 0.3 else "none" if r < 0.4 else ("obj", None) if r < 0.5 else ("obj", rng.choice(pool))
+    mro = list(reversed(levels))
+    if o_own_discr(mro) is not None and rng.random() < 0.8:
+        # most of the time K itself reads fields
+        kc = levels[-1]["config"]
+        if kc["dw"] not in (None, "none"):
+            kc["dw"] = rng.choice([None, "none"])
+        if o_own_discr(mro) is not None:
+            kc["dw"] = "none"
+    return spec
+
+
+def discr_stream(ctx, rng, k4_ok):
+    from mashumaro.codecs import BasicDecoder
+    from mashumaro.core.meta.code.builder import CodeBuilder
+    k43_ok = bool(ctx.kernel_report.get("K43", {}).get("ok"))
+    items, shown = [], []
+    views, vshown = [], []
+    for ci in range(ctx.budget(60, 160)):
+        spec = gen_discr_spec(rng)
+        src = class_source(spec)
+        levels = spec["levels"]
+        try:
+            mod = build_class(src)
+            K = mod.K
+            builders = {lv["cls"]: CodeBuilder(getattr(mod, lv["cls"])) for lv in levels}
+            ents = ([("K.from_dict", K.from_dict)] if spec["mixin"] else []) + [("BasicDecoder(K).decode", BasicDecoder(K).decode)]
+        except Exception as e:
+            ctx.fail(f"class creation fails: {type(e).__name__}: {e}",
+                     {"entry": "class-creation", "source": src, "spec": spec, "input": [], "observed": repr(e),
+                      "expected": "the classes are created"}, {"kind": "class-creation", "exc": type(e).__name__})
+            continue
+        # ---- what get_discriminator finds, for K and every ancestor
+        for j, lv in enumerate(levels):
+            sub = levels[:j + 1] if (spec["shape"] == "chain" or lv["cls"] == "K") else [lv]
+            mro = list(reversed(sub))
+            real_mro = [c.__name__ for c in getattr(mod, lv["cls"]).__mro__ if c.__module__ == mod.__name__]
+            if real_mro != [x["cls"] for x in mro]:
+                ctx.not_shown("discriminator stream MRO", f"expected {[x['cls'] for x in mro]}, Python says {real_mro}\n{src}")
+                continue
+            got = []
+            for lp in (True, False):
+                dv = builders[lv["cls"]].get_discriminator(look_in_parents=lp)
+                got.append(None if dv is None else ("obj", dv.field))
+            exp = [o_nearest_discr(mro), o_own_discr(mro)]
+            ctx.count(("discr-view", ci, lv["cls"]))
+            ctx.hist("discr_view", f"nearest={'-' if exp[0] is None else 'own' if exp[1] is not None else 'ancestor'} "
+                                   f"configs={sum(1 for x in mro if x['config'] is not None)}")
+            if got != exp:
+                LISTED.fail(ctx, "discr-view", len(views),
+                            f"CodeBuilder({lv['cls']}).get_discriminator(look_in_parents=True / False) -> {got!r}, "
+                            f"Python's attribute rules say {exp!r}",
+                            {"entry": "get_discriminator", "source": src, "class": lv["cls"], "spec": spec, "input": [],
+                             "observed": repr(got), "expected": repr(exp)},
+                            {"kind": "discriminator-lookup", "observed": repr(got[0] is not None), "expected": repr(exp[0] is not None)})
+            views.append((f"v{ci}_{j}", f"Definition dv{ci}_{j} : list dlevel := {c_dlevels(mro)}.",
+                          f"(dv{ci}_{j}, {c_oo(got[0])}, {c_oo(got[1])})"))
+            vshown.append((src, lv["cls"], got))
+        # ---- the keys K.from_dict accepts
+        mro = list(reversed(levels))
+        if builders["K"].get_discriminator() is not None or o_own_discr(mro) is not None:
+            drop_module(mod)
+            continue                                   # K is a dispatcher: no field is read (property C05)
+        nd = o_nearest_discr(mro)
+        ospec = dict(spec, no_base=True, discr=None if nd is None else (("field", nd[1]) if nd[1] is not None else ("nofield",)))
+        tags = [lv["config"]["dw"][1] for lv in levels if lv["config"] is not None and lv["config"].get("dw") not in (None, "none")
+                and lv["config"]["dw"][1] is not None]
+        keys = []
+        for k in tags + candidate_keys(ospec, rng, limit=6):
+            if k not in keys:
+                keys.append(k)
+        keys = keys[:7]
+        dfl = c_defaults(spec)
+        dtxt = f"Definition dh{ci} : list dlevel := {c_dlevels(mro)}."
+        for ks in subsets(keys, rng, ctx.budget(24, 64)):
+            d = make_dict(ks, keys, rng)
+            exp = o_keymodel(ospec, d)
+            obs0 = None
+            for ename, call in ents:
+                obs = observe(spec, call, d)
+                ctx.count(("discr", ci, repr(sorted(map(repr, d.items()))), ename))
+                ctx.hist("outcome", obs[0] + " (discriminator stream)")
+                obs0 = obs if obs0 is None else obs0
+                if obs != exp:
+                    LISTED.fail(ctx, "discr", len(items), f"{ename}({d!r}) -> {obs!r}, KEYMODEL says {exp!r}",
+                                replay_of(ospec, src, ename, d, obs, exp),
+                                {"kind": "key-resolution", "observed": obs[0], "expected": exp[0]})
+            items.append((f"h{ci}", dtxt, f"(dh{ci}, {dfl}, {c_dict(d)}, {c_obs(obs0)})"))
+            shown.append((src, d, obs0))
+        drop_module(mod)
+    MODEL = ("KeyModel KeyImpl KeyProofs KeyCfg PyK_alias PyK_clsdiscr KeyDiscr", "From VerifGen Require Import K4 K43.", ["theories/KeyDiscr.vo"])
+    n1 = "discriminator: get_discriminator(K43)/nearest_discr/own_discr-vs-CodeBuilder.get_discriminator"
+    n2 = "discriminator: impl_from_dhier(K4,K43)/keymodel with nearest_discr-vs-from_dict"
+    if k4_ok and k43_ok:
+        bad, log = coq_check("c09_dview", MODEL, views, "fun c => match c with (r, p, o) => discr_view_ok r p o end", ctx,
+                             ctype="list dlevel * option (option string) * option (option string)")
+        bad2, log2 = coq_check("c09_dhier", MODEL, items, "fun c => match c with (r, dfl, d, o) => dhier_ok r dfl d o end", ctx,
+                               ctype="list dlevel * list Z * dict * observation")
+    else:
+        bad = bad2 = None
+        log = log2 = "kernel K43 / K4 did not translate: " + str(ctx.kernel_report.get("K43", {}).get("error"))
+    settle(ctx, "discr-view", n1, len(views), bad, log,
+           lambda b: f"{len(b)} cases, first: class {vshown[b[0]][1]}: get_discriminator(True/False) = {vshown[b[0]][2]!r}\n{vshown[b[0]][0]}")
+    settle(ctx, "discr", n2, len(items), bad2, log2,
+           lambda b: f"{len(b)} cases, first: input {shown[b[0]][1]!r}: implementation {shown[b[0]][2]!r}\n{shown[b[0]][0]}")
+
+
+# ---------------------------------------------------------------------------
 # the check
 # ---------------------------------------------------------------------------
 
@@ -1612,6 +1814,7 @@ THEOREMS = ["K4_precedence", "K4_key_plan", "K4_allowed_keys", "C09_impl_is_code
             "C09_nearest_declaration", "C09_nearest_config", "C09_get_config", "C09_builder_config", "C09_fields_unique", "C09_alias_from_sources",
             "C09_mro_chain", "C09_mro_roots", "C09_own_view_finished", "C09_own_view_raw", "C09_nested", "C09_nested_inner_options", "C09_pre_hook", "C09_nearest_hook", "C09_hook_rename",
             "C09_dc_lookup", "C09_dc_chain", "C09_dc_roots", "C09_dataclass_fields_dc", "C09_deep", "C09_deep_list", "C09_deep_map_keys", "C09_deep_hooks", "C09_deep_no_hooks", "C09_inner_hook",
+            "C09_get_discriminator", "C09_own_discriminator", "C09_keys_discr", "C09_discr_accepted", "C09_discr_config_inheritance",
             "C09_field_key", "C09_outcome", "C09_alias_wins", "C09_fallback", "C09_accepted_covers_reads",
             "C09_reads_allowed", "C09_extra_members", "C09_extra_exact", "C09_ignored", "C09_forbidden_reported"]
 
@@ -1667,7 +1870,7 @@ def run(ctx: vlib.Ctx):
         "input keys are hashable scalars (str / None / int); values are ints or None and are opaque to the model (None "
         "crosses to Coq as the reserved code -7); outcomes are compared at the level of what is observable: attribute values",
     ]
-    br = ctx.theorems("props/C09_keys.vo", THEOREMS, kernels=["K4", "K5"])
+    br = ctx.theorems("props/C09_keys.vo", THEOREMS, kernels=["K4", "K5", "K43"])
     # every registered name must be a theorem of the props file with its own Print Assumptions, all closed
     import os
     import re
@@ -1869,6 +2072,8 @@ def run(ctx: vlib.Ctx):
                          ctype="list level * list level * list (string * option string * bool) * cfg")
     nm = "collect/nearest_cfg/impl_cfg(K4)-vs-CodeBuilder.dataclass_fields/get_config"
     settle(ctx, None, nm, len(src_items), bad, log, lambda b: f"{len(b)} cases, first: {src_shown[b[0]][1:]} of\n{src_shown[b[0]][0]}")
+    # ---- class-level discriminators anywhere in the hierarchy (after everything else: the earlier streams keep their cases)
+    discr_stream(ctx, rng, k4_ok)
 
 
 # ---------------------------------------------------------------------------
@@ -1902,6 +2107,25 @@ def replay(rep: dict) -> int:
         print("classes, decoders and builder views are created")
         print("not reproduced")
         return 0
+    if rep["entry"] == "get_discriminator":
+        from mashumaro.core.meta.code.builder import CodeBuilder
+        levels = spec["levels"]
+        j = [lv["cls"] for lv in levels].index(rep["class"])
+        sub = levels[:j + 1] if (spec["shape"] == "chain" or rep["class"] == "K") else [levels[j]]
+        mro = list(reversed(sub))
+        for lv in levels:
+            c = lv["config"]
+            if c is not None and isinstance(c.get("dw"), list):
+                c["dw"] = tuple(c["dw"])
+        b = CodeBuilder(getattr(mod, rep["class"]))
+        got = []
+        for lp in (True, False):
+            dv = b.get_discriminator(look_in_parents=lp)
+            got.append(None if dv is None else ("obj", dv.field))
+        exp = [o_nearest_discr(mro), o_own_discr(mro)]
+        print(rep["source"]); print("class   ", rep["class"]); print("observed", got); print("expected", exp)
+        print("REPRODUCED" if got != exp else "not reproduced")
+        return 1 if got != exp else 0
     if "input_deep" in rep:
         from mashumaro.codecs import BasicDecoder
         sp = spec
